@@ -142,69 +142,99 @@ def starting_vectors(chk, repo):
                 Y = [[out.store[s * NYS + i] for s in range(nsol)] for i in range(nys)]
             except KeyError as ex:
                 chk.ob('R04.1', f'{lab}: span flow-invariance', False, f'slot {ex} never written', where, key=f'R04.1|{fname}'); continue
-            # solver's own matrix for every assumption set this starting function is paired with (the static-liquid start serves the compressible and the incompressible class)
-            pairings = [incomp] if not (kind == 'liquid' and static) else [True, False]
-            for incomp_c in pairings:
-                cname = SM.CLASSES[(kind, static, incomp_c)]
-                Pm = dict(P); Pm['r'] = atoms['r']; Pm['rho'] = atoms['rho']; Pm['K'] = atoms['K']; Pm['mu'] = atoms['mu']; Pm['w'] = atoms['w']
-                Pm['g'] = gam * atoms['r']
-                dy, yv, _ = SM.extract_rhs(repo, mo, cname, Pm, nys)
-                A = SM.matrix_from(dy, nys)
-                Mx = []
-                for i in range(nys):
-                    row = []
-                    for s in range(nsol):
-                        acc = X.ZERO
-                        for j in range(nys):
-                            acc = acc + A[i][j] * Y[j][s]
-                        row.append(acc - X.diff(Y[i][s], 'r'))
-                    Mx.append(row)
-                d = X.Decider(seed=chk.seed + 17, k=K_pts)
-                ok = True; detail = ''
-                n_eval = 0
-                extra_pts = []
-                for pt in list(d.points) + extra_pts:
-                    try:
-                        Yv = [[pt.ev(Y[i][s]) for s in range(nsol)] for i in range(nys)]
-                        Mv = [[pt.ev(Mx[i][s]) for s in range(nsol)] for i in range(nys)]
-                    except X.Resample:
-                        continue
-                    n_eval += 1
-                    rY = X.rank_gf(Yv)
-                    rYM = X.rank_gf([Yv[i] + Mv[i] for i in range(nys)])
-                    if rY != nsol:
-                        ok = False; detail = f'the {nsol} starting vectors are linearly dependent (rank {rY})'; break
-                    if rYM != rY:
-                        # which solution leaves the span?
-                        offenders = []
+            def span_test(Y, sfx='', ksfx=''):
+                # solver's own matrix for every assumption set this starting function is paired with (the static-liquid start serves the compressible and the incompressible class)
+                pairings = [incomp] if not (kind == 'liquid' and static) else [True, False]
+                for incomp_c in pairings:
+                    cname = SM.CLASSES[(kind, static, incomp_c)]
+                    Pm = dict(P); Pm['r'] = atoms['r']; Pm['rho'] = atoms['rho']; Pm['K'] = atoms['K']; Pm['mu'] = atoms['mu']; Pm['w'] = atoms['w']
+                    Pm['g'] = gam * atoms['r']
+                    dy, yv, _ = SM.extract_rhs(repo, mo, cname, Pm, nys)
+                    A = SM.matrix_from(dy, nys)
+                    Mx = []
+                    for i in range(nys):
+                        row = []
                         for s in range(nsol):
-                            if X.rank_gf([Yv[i] + [Mv[i][s]] for i in range(nys)]) != rY:
-                                offenders.append(s)
-                        res = max(d.residual(Mx[i][s])[0] for i in range(nys) for s in offenders) if offenders else 0
-                        detail = (f'rank[Y | A Y - dY/dr] = {rYM} > rank Y = {rY}: A*Y_s - dY_s/dr leaves the span of the starting vectors for solution slot(s) {offenders} '
-                                  f'(float residual up to {res:.3g}); the vectors at r and r+dr are not related by {cname}')
-                        ok = False; break
-                if n_eval == 0:
-                    # every sample point hit a pole / a non-residue under a square root: try further points before giving up (never pass on zero evaluations)
-                    for extra_seed in range(1, 40):
-                        d2 = X.Decider(seed=chk.seed + 17 + 101 * extra_seed, k=K_pts)
-                        for pt in d2.points:
-                            try:
-                                Yv = [[pt.ev(Y[i][s]) for s in range(nsol)] for i in range(nys)]
-                                Mv = [[pt.ev(Mx[i][s]) for s in range(nsol)] for i in range(nys)]
-                            except X.Resample:
-                                continue
-                            n_eval += 1
-                            rY = X.rank_gf(Yv); rYM = X.rank_gf([Yv[i] + Mv[i] for i in range(nys)])
-                            if rY != nsol:
-                                ok = False; detail = f'the {nsol} starting vectors are linearly dependent (rank {rY})'; break
-                            if rYM != rY:
-                                ok = False; detail = f'rank[Y | A Y - dY/dr] = {rYM} > rank Y = {rY}: the vectors at r and r+dr are not related by {cname}'; break
-                        if n_eval >= K_pts or not ok: break
+                            acc = X.ZERO
+                            for j in range(nys):
+                                acc = acc + A[i][j] * Y[j][s]
+                            row.append(acc - X.diff(Y[i][s], 'r'))
+                        Mx.append(row)
+                    d = X.Decider(seed=chk.seed + 17, k=K_pts)
+                    ok = True; detail = ''
+                    n_eval = 0
+                    extra_pts = []
+                    for pt in list(d.points) + extra_pts:
+                        try:
+                            Yv = [[pt.ev(Y[i][s]) for s in range(nsol)] for i in range(nys)]
+                            Mv = [[pt.ev(Mx[i][s]) for s in range(nsol)] for i in range(nys)]
+                        except X.Resample:
+                            continue
+                        n_eval += 1
+                        rY = X.rank_gf(Yv)
+                        rYM = X.rank_gf([Yv[i] + Mv[i] for i in range(nys)])
+                        if rY != nsol:
+                            ok = False; detail = f'the {nsol} starting vectors are linearly dependent (rank {rY})'; break
+                        if rYM != rY:
+                            # which solution leaves the span?
+                            offenders = []
+                            for s in range(nsol):
+                                if X.rank_gf([Yv[i] + [Mv[i][s]] for i in range(nys)]) != rY:
+                                    offenders.append(s)
+                            res = max(d.residual(Mx[i][s])[0] for i in range(nys) for s in offenders) if offenders else 0
+                            detail = (f'rank[Y | A Y - dY/dr] = {rYM} > rank Y = {rY}: A*Y_s - dY_s/dr leaves the span of the starting vectors for solution slot(s) {offenders} '
+                                      f'(float residual up to {res:.3g}); the vectors at r and r+dr are not related by {cname}')
+                            ok = False; break
                     if n_eval == 0:
-                        raise AnalysisError(f'{lab}: no sample point could be evaluated (all hit poles / non-residues)')
-                chk.ob('R04.1', f'{lab}: span of the starting vectors is invariant under {cname} (rank[Y | A Y - Y\'] = rank Y)', ok, detail, where,
-                       key=f'R04.1|{fname}' + ('' if incomp_c == incomp else f'|{cname}'), method=f'exact rank over GF(p^2) at {len(d.points)} points')
+                        # every sample point hit a pole / a non-residue under a square root: try further points before giving up (never pass on zero evaluations)
+                        for extra_seed in range(1, 40):
+                            d2 = X.Decider(seed=chk.seed + 17 + 101 * extra_seed, k=K_pts)
+                            for pt in d2.points:
+                                try:
+                                    Yv = [[pt.ev(Y[i][s]) for s in range(nsol)] for i in range(nys)]
+                                    Mv = [[pt.ev(Mx[i][s]) for s in range(nsol)] for i in range(nys)]
+                                except X.Resample:
+                                    continue
+                                n_eval += 1
+                                rY = X.rank_gf(Yv); rYM = X.rank_gf([Yv[i] + Mv[i] for i in range(nys)])
+                                if rY != nsol:
+                                    ok = False; detail = f'the {nsol} starting vectors are linearly dependent (rank {rY})'; break
+                                if rYM != rY:
+                                    ok = False; detail = f'rank[Y | A Y - dY/dr] = {rYM} > rank Y = {rY}: the vectors at r and r+dr are not related by {cname}'; break
+                            if n_eval >= K_pts or not ok: break
+                        if n_eval == 0:
+                            raise AnalysisError(f'{lab}: no sample point could be evaluated (all hit poles / non-residues)')
+                    chk.ob('R04.1', f'{lab}{sfx}: span of the starting vectors is invariant under {cname} (rank[Y | A Y - Y\'] = rank Y)', ok, detail, where,
+                           key=f'R04.1{ksfx}|{fname}' + ('' if incomp_c == incomp else f'|{cname}'), method=f'exact rank over GF(p^2) at {len(d.points)} points')
+            span_test(Y)
+            if viol and lval is lsym:
+                # a function with a recorded cross-solution read is judged a second time with every such read redirected to the solution's own slot (the recorded mix-up
+                # undone): whatever ELSE is wrong in it is then not hidden behind the recorded finding
+                sol_of_line = {}
+                for k_, _v, st_ in out.writes:
+                    if st_ is not None and isinstance(k_, int): sol_of_line[st_.lineno] = k_ // NYS
+
+                class OwnSlot(Arr):
+                    cur = None
+                    def get(self, idx):
+                        k_ = self._key(idx)
+                        if self.cur is not None and isinstance(k_, int) and k_ // NYS != self.cur and k_ // NYS < nsol:
+                            idx = self.cur * NYS + k_ % NYS - self.offset
+                        return Arr.get(self, idx)
+                out2 = OwnSlot('start')
+                it2 = make_interp(repo)
+
+                def pre(itp, st, fr, out2=out2, sol_of_line=sol_of_line):
+                    if fr.fname == fname: out2.cur = sol_of_line.get(getattr(st, 'lineno', -1))
+                    return None
+                it2.hooks['stmt'] = pre
+                it2.call(m, f, [atoms[p] for p in plist] + [NYS, out2])
+                try:
+                    Y2 = [[out2.store[s * NYS + i] for s in range(nsol)] for i in range(nys)]
+                except KeyError:
+                    Y2 = None
+                if Y2 is not None:
+                    span_test(Y2, sfx=' [cross-solution reads redirected to the own slot]', ksfx='c')
             chk.note_analysed('functions', lab)
 
 
